@@ -140,6 +140,33 @@ def main():
                         exp = rootsum if kind == "info" else (rootsum if job.get("with_root") else ())
                         cases.append({"kind": kind, "file": rel, "tamper": tname, "changed": changed, "size": len(data),
                                       "outcome": outcome(work, exp)})
+            # silent corruption in place: same path, same size, same modification time, in a process that has already hashed the file
+            # (when it wrote it, and again in a first check()); everything is restored afterwards
+            ds_live = Dataset(root)
+            ds_live.check(show_progressbar=False)
+            for kind, files in (("list", lists[:3]), ("shard", shards[:3])):
+                for rel in files:
+                    f = root / rel
+                    data = f.read_bytes()
+                    if not data:
+                        continue
+                    st = f.stat()
+                    b = bytearray(data)
+                    b[len(b) // 2] ^= 0x20
+                    f.write_bytes(bytes(b))
+                    os.utime(f, ns=(st.st_atime_ns, st.st_mtime_ns))
+                    try:
+                        try:
+                            ds_live.check(show_progressbar=False)
+                            o1 = "passed"
+                        except BaseException as ex:  # noqa: BLE001
+                            o1 = "error:" + type(ex).__name__
+                        o2 = outcome(root, ())
+                    finally:
+                        f.write_bytes(data)
+                        os.utime(f, ns=(st.st_atime_ns, st.st_mtime_ns))
+                    cases.append({"kind": kind, "file": rel, "tamper": "inplace-same-mtime:live-handle", "changed": True, "size": len(data), "outcome": o1})
+                    cases.append({"kind": kind, "file": rel, "tamper": "inplace-same-mtime:reopened", "changed": True, "size": len(data), "outcome": o2})
             res.append({"base": base, "cases": cases})
         except Exception as ex:  # noqa: BLE001
             res.append({"build_error": f"{type(ex).__name__}: {ex}"[:300]})
